@@ -2,6 +2,9 @@
 from .. import facts as F
 from .. import flow
 from .common import census, anchor, param_bool_switches
+from ..absint import core as _core  # noqa: E402
+from ..absint.core import Agg as _Agg, Const as _Const, ok as _ok, err as _err  # noqa: E402
+from ..absint.term import EffectDomain as _EffectDomain, Sym as _Sym, T as _T, IterV as _IterV  # noqa: E402
 
 LEVEL = "other"
 
@@ -118,61 +121,177 @@ def _ref_sources(body, operand):
     return out
 
 
+def open_index_summary(facts):
+    """Effect summary of db::open_index over a symbolic configuration (helpers followed)."""
+    body = facts.fn("db::open_index")
+    cfg_adt = facts.adt("config::Config")
+    meta_adt = facts.adt("config::Meta")
+    mfields = [f["name"] for f in meta_adt["variants"][0]["fields"]]
+    cfields = [f["name"] for f in cfg_adt["variants"][0]["fields"]]
+    meta = _Agg("adt", "config::Meta", 0, "Meta", [_Sym("meta." + f) for f in mfields])
+    config = _Agg("adt", "config::Config", 0, "Config", [meta if f == "meta" else _Sym("config." + f) for f in cfields])
+
+    def oracle(dom, it, name, args, vals, store):
+        if name in ("log::max_level",):
+            return [(_Sym("log_level"), store)]
+        if name == "std::cmp::PartialOrd::le" and any(isinstance(v, _Sym) and v.name == "log_level" for v in vals):
+            return [(_Const(False), store)]
+        if name.endswith("::with_context") or name.endswith(">::context"):
+            return [(vals[0], store)]
+        if name in ("std::path::Path::is_dir", "std::path::Path::exists", "std::path::Path::is_file"):
+            return dom.fork(store, _T(name.rsplit("::", 1)[-1], vals[0]))
+        if name in ("<std::path::PathBuf as std::ops::Deref>::deref", "std::path::PathBuf::as_path", "<std::path::PathBuf as std::convert::AsRef<std::path::Path>>::as_ref"):
+            return [(vals[0], store)]
+        return None
+
+    effects = {n: (n.rsplit("::", 1)[-1], "fallible") for n in FS_WRITE}
+    effects["tantivy::Index::open_in_dir"] = ("open_in_dir", "fallible-value")
+    effects["tantivy::Index::create_in_dir"] = ("create_in_dir", "fallible-value")
+    dom = _EffectDomain(effects, oracle=oracle)
+    dom.uninterp = lambda n: facts.fn(n) is None
+    it = _core.Interp(facts, dom, budget=300000)
+    st, ref = it.fresh_slot({}, config)
+    outs = it.run(body, [ref], st)
+    return dom, it, body, outs
+
+
+DESTROY = ("remove_dir_all", "remove_dir", "create_in_dir")
+
+
+def compared_equal(pc, *mentions):
+    """Is there, on this path, an equality test (==, !=, possibly negated) whose operands mention all of `mentions`, decided
+    'equal'?"""
+    for p, b in pc:
+        while isinstance(p, _T) and p.op == "Not" and len(p.args) == 1:
+            p, b = p.args[0], not b
+        if not (isinstance(p, _T) and p.op.startswith("call:")):
+            continue
+        eq = (p.op.endswith("::eq") and b is True) or (p.op.endswith("::ne") and b is False)
+        if eq and all(m in repr(p) for m in mentions):
+            return True
+    return False
+
+
 def r2_who_writes(facts, rep):
-    rep.rule("C15-R2", "who-may-write: the file-system mutating calls of the crate are exactly the frozen table "
-                       "(File::create on meta_path in write_meta; remove_dir_all / create_dir_all on index_path and the "
-                       "marker invalidation in open_index); write_meta is called from open_inner only")
+    rep.rule("C15-R2", "who-may-write: every file-system mutating call of the crate sits in open_index, in write_meta or in a helper "
+                       "that only they (transitively) call; in the effect summary of open_index (helpers followed) remove_file acts "
+                       "on the marker path and remove_dir_all / create_dir_all / open_in_dir / create_in_dir on the index path, and "
+                       "write_meta creates the marker path; write_meta is called from open_inner only")
+    from ..callgraph import CallGraph
     sites = census(facts, lambda n: n in FS_WRITE or (n.startswith("std::fs::") and any(
         w in n for w in ("remove", "create", "write", "rename", "copy", "set_"))))
-    allowed = {
-        ("config::Config::write_meta", "std::fs::File::create"): "meta_path",
-        ("db::open_index", "std::fs::remove_dir_all"): "index_path",
-        ("db::open_index", "std::fs::create_dir_all"): "index_path",
-        ("db::open_index", "std::fs::remove_file"): "meta_path",
-    }
+    cg = CallGraph(facts)
+    roots = {"db::open_index", "config::Config::write_meta"}
+    callers = {}
+    for p, outs in cg.edges.items():
+        for q in outs:
+            callers.setdefault(q, set()).add(p)
     for body, bid, t, sp, name in sites:
-        key = "%s:%s" % (body.path, name)
-        want = allowed.get((body.path, name))
-        if want is None:
-            rep.ob("C15-R2", key, False, "file-system mutation %s in %s is not in the who-may-write table" % (name, body.path),
-                   body.site(sp))
-            continue
-        srcs = _ref_sources(body, t["args"][0])
-        fields = {tuple(F.place_fields(a["place"]))[-1] for a in srcs}
-        rep.ob("C15-R2", key, fields == {want}, "%s in %s operates on %s (expected %s)" % (name, body.path, sorted(fields), want),
-               body.site(sp), sample={"fn": body.path, "call": name, "path_field": sorted(fields)})
+        # upward closure from the function, stopping at the two roots
+        seen, work, escaped = set(), [body.path.split("::{closure")[0]], []
+        while work:
+            f = work.pop()
+            if f in seen or f in roots:
+                continue
+            seen.add(f)
+            cs = callers.get(f, set())
+            if not cs:
+                escaped.append(f)
+            work.extend(cs)
+        rep.ob("C15-R2", "%s:%s" % (body.path if body.path in roots else "helper", name), not escaped,
+               "%s in %s is reached only through open_index / write_meta" % (name, body.path) if not escaped else
+               "file-system mutation %s in %s can be reached from %s, outside open_index / write_meta" % (name, body.path, escaped[:3]),
+               body.site(sp), sample={"fn": body.path, "call": name})
     rep.floor("C15-R2", "file-system mutation sites", len(sites), 3)
-    callers = census(facts, lambda n: n == "config::Config::write_meta")
-    for body, bid, t, sp, name in callers:
+    cs = census(facts, lambda n: n == "config::Config::write_meta")
+    for body, bid, t, sp, name in cs:
         rep.ob("C15-R2", "caller-of-write_meta:%s" % body.path, body.path == "db::Db::open_inner",
                "write_meta is called from %s" % body.path, body.site(sp))
-    rep.floor("C15-R2", "callers of write_meta", len(callers), 1)
-    # tantivy index creation / destruction entry points
+    rep.floor("C15-R2", "callers of write_meta", len(cs), 1)
     for body, bid, t, sp, name in census(facts, lambda n: n in ("tantivy::Index::create_in_dir", "tantivy::Index::open_in_dir")):
-        rep.ob("C15-R2", "index-dir:%s:%s" % (body.path, name.split("::")[-1]), body.path == "db::open_index",
-               "%s is called from %s" % (name, body.path), body.site(sp))
+        top = body.path.split("::{closure")[0]
+        okc = top == "db::open_index" or (callers.get(top) and all(c in roots or c == "db::open_index" for c in callers.get(top, ())))
+        rep.ob("C15-R2", "index-dir:%s" % name.split("::")[-1], bool(okc), "%s is called from %s" % (name, body.path), body.site(sp))
+    # operands, from the summaries
+    if anchor(rep, "C15-R2", facts, "db::open_index") is None:
+        return
+    try:
+        dom, it, body, outs = open_index_summary(facts)
+    except _core.Undecided as e:
+        rep.ob("C15-R2", "open_index:summary", False, "undecided: %s" % e)
+        return
+    want = {"remove_file": "config.meta_path", "remove_dir_all": "config.index_path", "create_dir_all": "config.index_path",
+            "open_in_dir": "config.index_path", "create_in_dir": "config.index_path"}
+    seen = {}
+    for o in outs:
+        for e in dom.log(o.store):
+            if e[0] in ("fail",):
+                continue
+            arg = repr(e[1]) if len(e) > 1 else "?"
+            seen.setdefault(e[0], set()).add(arg)
+    for lab, args in sorted(seen.items()):
+        w = want.get(lab)
+        rep.ob("C15-R2", "operand:%s" % lab, w is not None and args == {w},
+               "%s acts on %s%s" % (lab, sorted(args), "" if w is None else " (specified %s)" % w), body.site(), sample={"effect": lab, "operands": sorted(args)})
+    rep.floor("C15-R2", "effects of open_index", len(seen), 4)
 
 
 def r3_invalidate_before_destroy(facts, rep):
-    rep.rule("C15-R3", "invalidate before destroy: in open_index every path to remove_dir_all or Index::create_in_dir "
-                       "first removes the marker file (fs::remove_file on meta_path), so a crash while the index is being "
-                       "rebuilt can never leave a marker that declares an incomplete index current")
-    body = anchor(rep, "C15-R3", facts, "db::open_index")
-    if body is None:
+    rep.rule("C15-R3", "invalidate before destroy: on every path of open_index's effect summary (helpers followed) the removal of "
+                       "the marker file precedes remove_dir_all and Index::create_in_dir, so a crash while the index is being rebuilt "
+                       "can never leave a marker that declares an incomplete index current; (false, index) is returned only on paths "
+                       "where the stored version was compared equal to this build's and open_in_dir succeeded, with no mutation")
+    if anchor(rep, "C15-R3", facts, "db::open_index") is None:
         return
-    cfg = body.cfg
-    inval = []
-    for bid, t, sp, name in flow.calls_named(body, lambda n: n == "std::fs::remove_file"):
-        fields = {tuple(F.place_fields(a["place"]))[-1] for a in _ref_sources(body, t["args"][0])}
-        if fields == {"meta_path"}:
-            inval.append(bid)
-    destroy = flow.calls_named(body, lambda n: n in ("std::fs::remove_dir_all", "tantivy::Index::create_in_dir"))
-    rep.floor("C15-R3", "index destruction / re-creation sites in open_index", len(destroy), 2)
-    for bid, t, sp, name in destroy:
-        good = bool(inval) and cfg.every_path_passes(0, {bid}, inval) and bid not in inval
-        rep.ob("C15-R3", "before:%s" % name.split("::")[-1], good,
-               "%s is %spreceded on every path by the removal of the marker file" % (name, "" if good else "NOT "),
-               body.site(sp), sample={"site": name, "invalidations": len(inval)})
+    try:
+        dom, it, body, outs = open_index_summary(facts)
+    except _core.Undecided as e:
+        rep.ob("C15-R3", "open_index:summary", False, "undecided: %s" % e)
+        return
+    rep.count("open_index paths", len(outs))
+    bad = {}
+    n_destroy = 0
+    n_reuse = 0
+    badr = []
+    for o in outs:
+        if o.kind != "ret":
+            bad.setdefault("panic", []).append("%s %s" % (o.kind, o.value))
+            continue
+        log = dom.log(o.store)
+        labels = [e[0] for e in log]
+        for i, lab in enumerate(labels):
+            if lab in DESTROY:
+                n_destroy += 1
+                inv = [k for k in range(i) if labels[k] == "remove_file" and "config.meta_path" in repr(log[k][1])]
+                if not inv:
+                    bad.setdefault(lab, []).append("effects %s" % labels)
+        v = o.value
+        r = v.field(0) if isinstance(v, _Agg) and v.path == "std::result::Result" and v.vi == 0 else None
+        if isinstance(r, _Agg) and r.kind == "tuple" and len(r.fields) == 2:
+            flag = r.field(0)
+            pc = dom.pc(o.store)
+            if flag == _Const(False):
+                n_reuse += 1
+                veq = compared_equal(pc, "meta.version", "config.this_version")
+                opened = "open_in_dir" in labels and ("fail", "open_in_dir") not in log
+                mutated = [l for l in labels if l in DESTROY or l in ("remove_file", "create_dir_all")]
+                if not (veq and opened and not mutated and r.field(1) != _Sym("nothing")):
+                    badr.append("(false, index) with version-equal=%s, open_in_dir ok=%s, mutations=%s" % (veq, opened, mutated))
+            elif flag == _Const(True):
+                if "create_in_dir" not in labels:
+                    badr.append("(true, index) without re-creating the index (effects %s)" % labels)
+            else:
+                badr.append("the rebuild flag returned is %r" % (flag,))
+    for lab in DESTROY:
+        if lab in bad or any(lab in [e[0] for e in dom.log(o.store)] for o in outs):
+            rep.ob("C15-R3", "before:%s" % lab, lab not in bad,
+                   "%s is %spreceded on every path by the removal of the marker file%s" % (lab, "" if lab not in bad else "NOT ", "" if lab not in bad else ": " + bad[lab][0]),
+                   body.site(), sample={"site": lab})
+    if "panic" in bad:
+        rep.ob("C15-R3", "open_index:no-panic", False, bad["panic"][0], body.site())
+    rep.floor("C15-R3", "index destruction / re-creation effects on open_index paths", n_destroy, 2)
+    rep.ob("C15-R4", "open_index:(false,index)", not badr and n_reuse >= 1, "; ".join(sorted(set(badr))[:3]) if badr else
+           "(false, index) only behind version equality and a successful open_in_dir, without any mutation (%d path(s))" % n_reuse, body.site())
 
 
 def r4_trust_conditions(facts, rep):
@@ -207,28 +326,6 @@ def r4_trust_conditions(facts, rep):
         pan = _panics(tr)
         rep.ob("C15-R4", "try_read:no-panic", not pan, "panicking calls in try_read: %s" % pan, tr.site())
         rep.count("functions")
-    if oi is not None:
-        cfg = oi.cfg
-        n = 0
-        for b, i, s in oi.stmts():
-            rv = s["rv"]
-            if rv["k"] == "aggregate" and rv["kind"]["k"] == "tuple" and len(rv["ops"]) == 2 and \
-                    rv["ops"][0]["k"] == "const" and rv["ops"][0].get("ty") == "bool" and F.const_val(rv["ops"][0]) == 0:
-                n += 1
-                opens = flow.calls_named(oi, lambda nm: nm == "tantivy::Index::open_in_dir")
-                good = False
-                for ob, ot, osp, _ in opens:
-                    e = flow.ok_edge(oi, ob)
-                    if e and b["id"] in cfg.blocks_only_via_edge(e[0], e[1]):
-                        # and open_in_dir itself only when the versions are equal
-                        good = _only_when_versions_equal(oi, ob, facts)
-                rep.ob("C15-R4", "open_index:(false,index)#%d" % n, good,
-                       "(false, index) is returned %s" % ("only after open_in_dir succeeded behind the version test" if good
-                                                           else "without a successful open_in_dir behind a version-equality test"),
-                       oi.site(s["span"]))
-        rep.floor("C15-R4", "(false, index) returns in open_index", n, 1)
-    if inner is not None:
-        _rebuild_flag(inner, facts, rep)
 
 
 def _panics(body):
@@ -372,9 +469,6 @@ def run(fx, rep, tier):
 
 
 # ---- R6: session summary of Db::open_inner -------------------------------------------------------------
-from ..absint import core as _core  # noqa: E402
-from ..absint.core import Agg as _Agg, Const as _Const, ok as _ok, err as _err  # noqa: E402
-from ..absint.term import EffectDomain as _EffectDomain, Sym as _Sym, T as _T, IterV as _IterV  # noqa: E402
 
 
 def open_inner_summary(facts, in_memory):
@@ -482,8 +576,8 @@ def r6_session(facts, rep, rule="C15-R6"):
                     # skipped: needs hash equality and index_rebuild == false on the path
                     pc = dom.pc(o.store)
                     ir = dom.decide(o.store, _Sym("index_rebuild"))
-                    ne_false = any(isinstance(p, _T) and p.op.startswith("call:") and p.op.endswith("::ne") and b is False
-                                   and any(a == _Sym("hash") or "hash" in repr(a) for a in p.args) for p, b in pc)
+                    ne_false = compared_equal(pc, "meta.database_hash", "hash") and compared_equal(
+                        [(p, b) for p, b in pc if "hash" in repr(p).replace("meta.database_hash", "")], "meta.database_hash")
                     okk = core_seq == ["open_index", "register"] and ir is False and ne_false
                     key = "on-disk-skip:%s:index_rebuild=%s:hash_differs_decided_false=%s" % (",".join(core_seq), ir, ne_false)
                     if key in seen:
